@@ -50,6 +50,8 @@ def check(prog, rep, tier):
                       'extended form from 256 on, so every length can be encoded')
     rep.rule('R06.j', 'field boundaries: no comparison in the standard attribute codecs splits a range between '
                       '2**k - 2 and 2**k - 1')
+    rep.rule('R06.k', 'decoders look a received value up in a constant table only under a test that it is in the '
+                      'table (no KeyError for legal values outside it)')
     rep.assumptions += ['equality of decoded and given values for concrete inputs is not decided (round-trip '
                         'equality over the value space is not a static property)']
 
@@ -126,6 +128,20 @@ def check(prog, rep, tier):
             rep.ok('R06.i', key, file=fn.file, line=fn.node.lineno, found='both forms reached')
         else:
             rep.undecided('R06.i', key, file=fn.file, line=fn.node.lineno, found='forms reached: %s' % sorted(seenb))
+
+    # ---------------------------------------------------------------- R06.k
+    nfk, lks = common.unguarded_table_lookups(prog, lambda fn: (
+        fn.module.name.startswith('yabgp.message.attribute') and '.nlri' not in fn.module.name
+        and '.linkstate' not in fn.module.name and '.sr' not in fn.module.name and fn.name.startswith('parse'))
+        or (fn.module.name == 'yabgp.message.update' and fn.name.startswith('parse')))
+    for fn, node, table, ktxt in lks:
+        key = 'table-lookup:%s:%s' % (fn.qualname, table)
+        rep.bad('R06.k', key, file=fn.file, line=node.lineno, func=fn.qualname,
+                found='%s[%s] is read without a test that the key is in the table: a received value outside the table '
+                      'raises KeyError and the attribute is reported as malformed although it is legal' % (table, ktxt),
+                expected='`%s in %s` (or an equality test of the key) dominates the lookup' % (ktxt, table), key=key)
+    if not lks:
+        rep.ok('R06.k', 'table-lookups-guarded', found='%d decoder functions scanned' % nfk)
 
     # ---------------------------------------------------------------- R06.j
     common.report_boundary_splits(prog, rep, 'R06.j', lambda fn: (
